@@ -77,18 +77,22 @@ theorem PagerActs.facts {acts : List Action} (h : PagerActs acts) :
     | mem u => exact ⟨by simpa [failOf] using h1, by simpa [ioSteps] using h2⟩
     | fail e => exact absurd ha (by simp [PagerAct])
 
-theorem pagerActs_flush (pm : Meta) : PagerActs (flushA pm) := by
+theorem pagerActs_flush (pm : Meta) (bm : Nat) : PagerActs (flushA pm bm) := by
   intro a ha
   simp [flushA] at ha
   rcases ha with rfl | rfl | rfl <;> trivial
 
 theorem pagerActs_ensure (ps : PS) (pid : Nat) : PagerActs (ensureA ps pid).1 := by
   unfold ensureA
-  by_cases hg : ps.pm.nextPage ≤ pid <;> by_cases he : ps.len < pid + 1 <;> simp only [hg, he, if_true, if_false]
-  all_goals
-    apply PagerActs.append
-    · apply PagerActs.append <;> (intro a ha; simp at ha; try (subst ha; trivial))
-    · exact pagerActs_flush _
+  have hm : ∀ l : List Action, (∀ a ∈ l, (∃ u, a = memA u) ∨ (∃ n p, a = ioA (.pg (.setLen n) p))) → PagerActs l := by
+    intro l hl a ha
+    rcases hl a ha with ⟨u, rfl⟩ | ⟨n, p, rfl⟩ <;> trivial
+  apply PagerActs.append _ (pagerActs_flush _ _)
+  apply hm
+  intro a ha
+  by_cases hg : ps.pm.nextPage ≤ pid <;> by_cases he : ps.len < pid + 1 <;> simp [hg, he] at ha
+  all_goals (first | (rcases ha with rfl | rfl | rfl) | (rcases ha with rfl | rfl) | subst ha)
+  all_goals (first | exact Or.inl ⟨_, rfl⟩ | exact Or.inr ⟨_, _, rfl⟩)
 
 theorem pagerActs_alloc (ps : PS) : PagerActs (allocA ps).1 := by
   unfold allocA
@@ -104,7 +108,7 @@ theorem pagerActs_start (ps : PS) (id : IdSt) : PagerActs (startA ps id).1 := by
   unfold startA
   by_cases hs : id.start = 0
   · simp only [hs, if_true]
-    exact (((pagerActs_alloc ps).append (pagerActs_single_mem _)).append (pagerActs_flush _)).append (pagerActs_single_mem _)
+    exact (((pagerActs_alloc ps).append (pagerActs_single_mem _)).append (pagerActs_flush _ _)).append (pagerActs_single_mem _)
   · simp only [hs, if_false]
     intro a ha; simp at ha
 
@@ -118,7 +122,7 @@ theorem pagerActs_node (cfg : Cfg) (ps : PS) (id : IdSt) (x : Nat) : PagerActs (
   have h2 : ∀ (u v : MemUpd), PagerActs [memA u, memA v] := by
     intro u v a ha; simp at ha; rcases ha with rfl | rfl <;> trivial
   simp only
-  refine PagerActs.append (PagerActs.append (PagerActs.append (PagerActs.append (PagerActs.append ?_ (h2 _ _)) (pagerActs_flush _)) (pagerActs_single_mem _)) (pagerActs_flush _)) (pagerActs_single_mem _)
+  refine PagerActs.append (PagerActs.append (PagerActs.append (PagerActs.append (PagerActs.append ?_ (h2 _ _)) (pagerActs_flush _ _)) (pagerActs_single_mem _)) (pagerActs_flush _ _)) (pagerActs_single_mem _)
   rw [List.append_assoc, List.append_assoc]
   exact (pagerActs_start ps id).append ((pagerActs_ensure _ _).append hslot)
 
@@ -140,11 +144,11 @@ theorem node_phase {cfg : Cfg} {T : List Tx} {cs : List CTx} {c k : Nat} {p0 : P
     (hsync : cfg.syncSlot = true) (fs : FS) (ps : PS) (id : IdSt) (xs rest : List Nat)
     (hq : WalQuiet fs) (hcom : committed (readAll fs.wf) = .ok cs) (hlog : LogOK T cs c) (hstore : StoreOK T cs p0)
     (hdrop : (allNodes T).drop k = xs ++ rest)
-    (hB : AllImgs fs (NG (allNodes T) c p0 k)) (hS : SyncedI fs ps.pm) (hpm : OKhdr c p0 k ps.pm)
+    (hB : AllImgs fs (NG (allNodes T) c p0 k)) (hS : SyncedI fs ps) (hpm : OKhdr c p0 k ps.pm)
     (hlen : ps.pm.i2eLen = k) (hidl : id.len = k) (hids : id.start = ps.pm.i2eStart)
-    (hnp : 1 ≤ ps.pm.nextPage) (hck : c ≤ k) (hkN : k ≤ (allNodes T).length) :
+    (hnp : 1 ≤ ps.pm.nextPage) (hck : c ≤ k) (hkN : k ≤ (allNodes T).length) (hbm : p0.bm ≤ ps.bm) :
     SafeAlong (SafeFS [T]) fs (ioSteps (nodesA cfg ps id xs).1) := by
-  obtain ⟨_, sa, _⟩ := nodesA_safe b0 hsync xs k fs ps id rest hdrop hB hS hpm hlen hidl hids hnp hck hkN
+  obtain ⟨_, sa, _⟩ := nodesA_safe b0 hsync xs k fs ps id rest hdrop hB hS hpm hlen hidl hids hnp hck hkN hbm
   obtain ⟨_, hpg⟩ := (pagerActs_nodes cfg xs ps id).facts
   intro n
   have himgs := sa n
